@@ -259,9 +259,41 @@ def case_gen(draw, long_max):
     return case
 
 
+@st.composite
+def resub_case(draw):
+    return {'op': draw(st.sampled_from(OPS)), 'reduce': draw(st.booleans()), 'km': draw(st.booleans()),
+            'xs': draw(st.lists(st.one_of(st.integers(-50, 50), st.floats(-1e3, 1e3, allow_nan=False)), min_size=1, max_size=10)),
+            'peek': draw(st.integers(0, 3))}
+
+
+def check_resub(case):
+    """The same aggregate observable used more than once: after a subscriber that left early (take) and by two
+    subscribers at the same time -- every subscription computes the statistic of ITS items from scratch."""
+    import rx.operators as rxops
+    xs, op = case['xs'], case['op']
+    items = [(x,) for x in xs] if case['km'] else list(xs)
+    agg = build(op, case['reduce'], case['km'])
+    ref = drive.plain(items, [build(op, case['reduce'], case['km'])])
+    H.require_clean(ref, 'reference run', **case)
+    obs = rx.from_(items).pipe(agg)
+    drive.collect(obs.pipe(rxops.take(case['peek'])))          # a subscriber that leaves early
+    for n in (1, 2):
+        r = drive.collect(obs)
+        H.require_clean(r, 'subscription %d after an early leaver' % n, **case)
+        if r.items != ref.items and not (len(r.items) == len(ref.items) and all(a == b or (a != a and b != b) for a, b in zip(r.items, ref.items))):
+            raise Violation('%s: a later subscription of the same observable differs from a fresh one' % op, fresh=ref.items, got=r.items, **case)
+    for n, r in enumerate(drive.two_subscribers(items, agg)):
+        H.require_clean(r, 'subscriber %d of two' % n, **case)
+        if r.items != ref.items:
+            raise Violation('%s: two subscribers of the same observable interfere' % op, fresh=ref.items, got=r.items, **case)
+    return {'nontrivial': len(xs) >= 3, 'labels': ['op:' + op, 'reduce' if case['reduce'] else 'stream']}
+
+
 def subs(tier):
     lm = 10000 if tier == 'thorough' else 2000
     return [
         Sub('accuracy', check, gen=lambda: case_gen(lm), examples={'quick': 1800, 'thorough': 40000},
             doc='every prefix (streaming) and the final value (reduce) against exact rational statistics with an explicit error bound'),
+        Sub('resubscribe', check_resub, gen=resub_case, examples={'quick': 500, 'thorough': 30000},
+            doc='the same plain aggregate observable after an early-leaving subscriber, and with two subscribers at once'),
     ]
